@@ -10,6 +10,7 @@ over the events that touch the shared `pending` map.
 `waiting`  — the sender is blocked in the flow-control select
 `hi`       — the largest limits the client has asked for so far (the limits, when they never shrink)
 -/
+import Mmmbbb.Extracted
 namespace Mmmbbb.Stream
 
 structure Fc where
@@ -28,6 +29,13 @@ structure St where
   /-- the sender's `anyPending` flag: set by any pass of its capacity loop that saw something
       pending, cleared only when a fetch starts -/
   sawPending : Bool := false
+  /-- ids the reader found pending before it told the database about their ack / nack and has not yet
+      removed from `pending` (the reader is between its COMMIT and its update of the map) -/
+  releasing : List Nat := []
+  /-- shape of the reader's update of the map (from the source, `Extracted.streamerReaderReleases`):
+      it removes only the entries it saw before the database call — an id that was sent again in the
+      meantime has a fresh entry, which stays -/
+  guarded : Bool := true
 deriving Repr, Inhabited
 
 def bytesOf : List (Nat × Nat) → Int
@@ -59,6 +67,12 @@ inductive Ev where
   | fetchEmpty
   /-- ack / nack / zero-deadline on the stream -/
   | settle (ids : List Nat)
+  /-- first half of an ack / nack / zero-deadline on the stream: the reader has snapshotted the entries
+      and its transaction has committed (the messages are no longer outstanding; a nacked one is
+      deliverable again) -/
+  | settleCommit (ids : List Nat)
+  /-- second half: the reader updates the map and leaves a wake token -/
+  | settleBook
   /-- Acknowledge / expiry outside the stream -/
   | extSettle (ids : List Nat)
   /-- the refresh goroutine found these pending ids settled in the database -/
@@ -87,14 +101,23 @@ def step (s : St) : Ev → St
     | some (m, b, strict) =>
       let sel := select strict b (cands.take m) 0 0
       { s with pending := insertAll s.pending sel, out := s.out.filter (fun i => !(sel.map (·.1)).contains i) ++ sel.map (·.1),
-               budget := none }
+               budget := none,
+               releasing := if s.guarded then s.releasing.filter (fun i => !(sel.map (·.1)).contains i) else s.releasing }
   | .fetchEmpty => { s with budget := none }
   | .settle ids => { s with pending := removeIds s.pending ids, out := s.out.filter (fun i => !ids.contains i), token := true }
+  | .settleCommit ids =>
+    { s with out := s.out.filter (fun i => !ids.contains i),
+             releasing := s.releasing ++ ids.filter (fun i => (s.pending.map (·.1)).contains i) }
+  | .settleBook => { s with pending := removeIds s.pending s.releasing, releasing := [], token := true }
   | .extSettle ids => { s with out := s.out.filter (fun i => !ids.contains i) }
   | .refresh gone =>
     -- only ids that are really settled are removed
     let g := gone.filter (fun i => !s.out.contains i)
     { s with pending := removeIds s.pending g, token := s.token || (s.pending.any (fun x => g.contains x.1)) }
+
+/-- the initial state, with the shape of the reader's map update read off the source -/
+def St.ofSource : St :=
+  { guarded := Extracted.streamerReaderReleases.all (· == "guarded") && !Extracted.streamerReaderReleases.isEmpty }
 
 def run (s : St) : List Ev → St
   | [] => s
